@@ -129,7 +129,9 @@ def correspondence(ctx):
         phi = g.standard_normal((rows, cols, nch)) + 1j * g.standard_normal((rows, cols, nch)) * rng.choice([0.0, 0.1, 1.0])
         nanmask = g.random((rows, cols)) < 0.2
         phi[nanmask, :] = np.nan
-        mpc_lim, mpd_lim = rng.uniform(0.1, 0.95), rng.uniform(0.05, 1.2)
+        # includes the boundary values of the documented ranges (0, 1, pi/2), which a 'falsy means default' shortcut would change
+        mpc_lim = rng.choice([0.0, 1.0, rng.uniform(0.1, 0.95), rng.uniform(0.1, 0.95)])
+        mpd_lim = rng.choice([0.0, math.pi / 2, rng.uniform(0.05, 1.2), rng.uniform(0.05, 1.2)])
         mpdv = np.full((rows, cols), np.nan)
         mpcv = np.full((rows, cols), np.nan)
         for i in range(rows):
@@ -322,8 +324,8 @@ def _rand_hc(ctx, with_cov, covvals=None):
     hc = dict(
         conj=rng.random() < 0.6,
         xi_max=rng.choice([0.03, 0.08, 0.2, 0.5, 1.0]),
-        mpc_lim=rng.choice([0.0, 0.3, 0.7, 0.9, 0.98]),
-        mpd_lim=rng.choice([0.05, 0.2, 0.5, 1.0, math.pi / 2]),
+        mpc_lim=rng.choice([0.0, 0.3, 0.7, 0.9, 0.98, 1.0]),
+        mpd_lim=rng.choice([0.0, 0.05, 0.2, 0.5, 1.0, math.pi / 2]),
     )
     if with_cov:
         hc["cov_max"] = rng.choice([1e-6, 1e-4, 1e-2, 1.0, 100.0])
